@@ -40,21 +40,40 @@ static inline hh_u32 hh_rol32(hh_u32 w, unsigned s)
 }
 
 /*
+ * The transforms are given as statement macros (HH_*_RUN) and used twice each: in a state-to-state function (hh_tea,
+ * hh_md4, hh_word — composed by hh_step / hh_dirhash) and in a SINGLE-LEVEL predicate (hh_*_holds) for contract clauses
+ * (the contract instrumentation does not support function calls nested inside a function called from a clause).
+ */
+
+/*
  * kernel TEA_transform(buf, in): keyed with in[0..3], block (buf[0], buf[1]);  sum += 0x9E3779B9 each round,
  *   b0 += ((b1 << 4) + a) ^ (b1 + sum) ^ ((b1 >> 5) + b);   b1 += ((b0 << 4) + c) ^ (b0 + sum) ^ ((b0 >> 5) + d)
  * 16 times, then buf[0] += b0, buf[1] += b1;  buf[2], buf[3] untouched.
  */
+#define HH_TEA_RUN(y, z, k) do { \
+		hh_u32 sum_ = 0; \
+		for (int r_ = 0; r_ < 16; r_++) { \
+			sum_ += 0x9E3779B9u; \
+			(y) += (((z) << 4) + (k)[0]) ^ ((z) + sum_) ^ (((z) >> 5) + (k)[1]); \
+			(z) += (((y) << 4) + (k)[2]) ^ ((y) + sum_) ^ (((y) >> 5) + (k)[3]); \
+		} \
+	} while (0)
+
 static inline struct hh_state hh_tea(struct hh_state s, const hh_u32 k[4])
 {
-	hh_u32 y = s.b[0], z = s.b[1], sum = 0;
-	for (int r = 0; r < 16; r++) {
-		sum += 0x9E3779B9u;
-		y += ((z << 4) + k[0]) ^ (z + sum) ^ ((z >> 5) + k[1]);
-		z += ((y << 4) + k[2]) ^ (y + sum) ^ ((y >> 5) + k[3]);
-	}
+	hh_u32 y = s.b[0], z = s.b[1];
+	HH_TEA_RUN(y, z, k);
 	s.b[0] += y;
 	s.b[1] += z;
 	return s;
+}
+
+/* (n0, n1) is the kernel's TEA_transform of (o0, o1) under key k */
+static inline int hh_tea_holds(hh_u32 o0, hh_u32 o1, const hh_u32 *k, hh_u32 n0, hh_u32 n1)
+{
+	hh_u32 y = o0, z = o1;
+	HH_TEA_RUN(y, z, k);
+	return n0 == o0 + y && n1 == o1 + z;
 }
 
 /*
@@ -64,59 +83,67 @@ static inline struct hh_state hh_tea(struct hh_state s, const hh_u32 k[4])
  *   round 1: F (selection),  K = 0,           in[0..7] in order,          rotations 3 7 11 19
  *   round 2: G (majority),   K = 0x5A827999,  in[1 3 5 7 0 2 4 6],        rotations 3 5 9 13
  *   round 3: H (parity),     K = 0x6ED9EBA1,  in[3 7 2 6 1 5 0 4],        rotations 3 9 11 15
- * then buf[i] += register i.
+ * then buf[i] += register i.  F and G in their RFC 1320 forms.
  */
-static inline hh_u32 hh_md4_f(int r, hh_u32 x, hh_u32 y, hh_u32 z)
-{
-	if (r == 0)
-		return (x & y) | (~x & z);		/* RFC 1320 F */
-	if (r == 1)
-		return (x & y) | (x & z) | (y & z);	/* RFC 1320 G */
-	return x ^ y ^ z;				/* RFC 1320 H */
-}
+#define HH_MD4_F(r, x, y, z) \
+	((r) == 0 ? (((x) & (y)) | (~(x) & (z))) : (r) == 1 ? (((x) & (y)) | ((x) & (z)) | ((y) & (z))) : ((x) ^ (y) ^ (z)))
+#define HH_ROL32(w, s) (((w) << (s)) | ((w) >> (32u - (s))))
+/* automatic (not static) tables: the contract instrumentation havocs static objects */
+#define HH_MD4_RUN(v, in) do { \
+		const unsigned char idx_[3][8] = { \
+			{ 0, 1, 2, 3, 4, 5, 6, 7 }, \
+			{ 1, 3, 5, 7, 0, 2, 4, 6 }, \
+			{ 3, 7, 2, 6, 1, 5, 0, 4 } }; \
+		const unsigned char rot_[3][4] = { { 3, 7, 11, 19 }, { 3, 5, 9, 13 }, { 3, 9, 11, 15 } }; \
+		const hh_u32 K_[3] = { 0u, 0x5A827999u, 0x6ED9EBA1u }; \
+		for (int r_ = 0; r_ < 3; r_++) \
+			for (int j_ = 0; j_ < 8; j_++) { \
+				int t_ = (4 - (j_ & 3)) & 3;	/* which register plays "a" in this step */ \
+				hh_u32 a_ = (v)[t_], b_ = (v)[(t_ + 1) & 3], c_ = (v)[(t_ + 2) & 3], d_ = (v)[(t_ + 3) & 3]; \
+				a_ += HH_MD4_F(r_, b_, c_, d_) + ((in)[idx_[r_][j_]] + K_[r_]); \
+				(v)[t_] = HH_ROL32(a_, (unsigned)rot_[r_][j_ & 3]); \
+			} \
+	} while (0)
 
 static inline struct hh_state hh_md4(struct hh_state s, const hh_u32 in[8])
 {
-	/* automatic (not static) tables: the contract instrumentation havocs static objects */
-	const unsigned char idx[3][8] = {
-		{ 0, 1, 2, 3, 4, 5, 6, 7 },
-		{ 1, 3, 5, 7, 0, 2, 4, 6 },
-		{ 3, 7, 2, 6, 1, 5, 0, 4 } };
-	const unsigned char rot[3][4] = { { 3, 7, 11, 19 }, { 3, 5, 9, 13 }, { 3, 9, 11, 15 } };
-	const hh_u32 K[3] = { 0u, 0x5A827999u, 0x6ED9EBA1u };
 	hh_u32 v[4];
 	v[0] = s.b[0]; v[1] = s.b[1]; v[2] = s.b[2]; v[3] = s.b[3];
-	for (int r = 0; r < 3; r++)
-		for (int j = 0; j < 8; j++) {
-			int t = (4 - (j & 3)) & 3;	/* which register plays "a" in this step */
-			hh_u32 a = v[t], b = v[(t + 1) & 3], c = v[(t + 2) & 3], d = v[(t + 3) & 3];
-			a += hh_md4_f(r, b, c, d) + (in[idx[r][j]] + K[r]);
-			v[t] = hh_rol32(a, rot[r][j & 3]);
-		}
+	HH_MD4_RUN(v, in);
 	s.b[0] += v[0]; s.b[1] += v[1]; s.b[2] += v[2]; s.b[3] += v[3];
 	return s;
 }
 
-/* one name byte as the kernel reads it: `(int) *ucp` resp. `(int) *scp` — value of the byte as unsigned / signed char */
-static inline int hh_char(const unsigned char *name, int i, int unsigned_variant)
+/* n[0..3] is the kernel's half_md4_transform of (o0..o3) with message in[0..7] */
+static inline int hh_md4_holds(hh_u32 o0, hh_u32 o1, hh_u32 o2, hh_u32 o3, const hh_u32 *in, const hh_u32 *n)
 {
-	return unsigned_variant ? (int)name[i] : (int)(signed char)name[i];
+	hh_u32 v[4];
+	v[0] = o0; v[1] = o1; v[2] = o2; v[3] = o3;
+	HH_MD4_RUN(v, in);
+	return n[0] == o0 + v[0] && n[1] == o1 + v[1] && n[2] == o2 + v[2] && n[3] == o3 + v[3];
 }
+
+/* one name byte as the kernel reads it: `(int) *ucp` resp. `(int) *scp` — value of the byte as unsigned / signed char */
+#define HH_CHAR(name, i, unsigned_variant) \
+	((unsigned_variant) ? (int)((const unsigned char *)(name))[i] : (int)((const signed char *)(name))[i])
 
 /*
  * kernel dx_hack_hash_signed / dx_hack_hash_unsigned:
  *   hash0 = 0x12a3fe2d, hash1 = 0x37abe8f9;  per byte: hash = hash1 + (hash0 ^ (c * 7152373));
  *   if (hash & 0x80000000) hash -= 0x7fffffff;  hash1 = hash0; hash0 = hash;     result hash0 << 1
  * (the multiplication is an `int` product in the kernel, built with -fwrapv/-fno-strict-overflow; |c| <= 255 so it
- * never overflows anyway)
+ * never overflows anyway).  HH_LEGACY_ROUND is the new hash0 after one byte c (the new hash1 is the old hash0).
  */
+#define HH_LEGACY_H0 0x12a3fe2du
+#define HH_LEGACY_H1 0x37abe8f9u
+#define HH_LEGACY_MIX(h0, h1, c) ((hh_u32)(h1) + ((hh_u32)(h0) ^ (hh_u32)((c) * 7152373)))
+#define HH_LEGACY_ROUND(h0, h1, c) \
+	((HH_LEGACY_MIX(h0, h1, c) & 0x80000000u) ? HH_LEGACY_MIX(h0, h1, c) - 0x7fffffffu : HH_LEGACY_MIX(h0, h1, c))
 static inline hh_u32 hh_legacy(const unsigned char *name, int len, int unsigned_variant)
 {
-	hh_u32 h0 = 0x12a3fe2du, h1 = 0x37abe8f9u, h;
+	hh_u32 h0 = HH_LEGACY_H0, h1 = HH_LEGACY_H1, h;
 	for (int i = 0; i < len; i++) {
-		h = h1 + (h0 ^ (hh_u32)(hh_char(name, i, unsigned_variant) * 7152373));
-		if (h & 0x80000000u)
-			h -= 0x7fffffffu;
+		h = HH_LEGACY_ROUND(h0, h1, HH_CHAR(name, i, unsigned_variant));
 		h1 = h0;
 		h0 = h;
 	}
@@ -133,17 +160,33 @@ static inline hh_u32 hh_legacy(const unsigned char *name, int len, int unsigned_
  *                                             behaviour is part of the on-disk format)
  *   words behind the end of the name are pad.
  */
+#define HH_PAD(len) (((hh_u32)(len) | ((hh_u32)(len) << 8)) | (((hh_u32)(len) | ((hh_u32)(len) << 8)) << 16))
+#define HH_WORD_RUN(val, msg, len, num, w, unsigned_variant) do { \
+		int lim_ = (len) > (num) * 4 ? (num) * 4 : (len); \
+		(val) = HH_PAD(len); \
+		for (int k_ = 0; k_ < 4; k_++) \
+			if (4 * (w) + k_ < lim_) \
+				(val) = (hh_u32)HH_CHAR(msg, 4 * (w) + k_, unsigned_variant) + ((val) << 8); \
+	} while (0)
+
 static inline hh_u32 hh_word(const unsigned char *msg, int len, int num, int w, int unsigned_variant)
 {
-	hh_u32 pad = (hh_u32)len | ((hh_u32)len << 8);
 	hh_u32 val;
-	int lim = len > num * 4 ? num * 4 : len;
-	pad |= pad << 16;
-	val = pad;
-	for (int k = 0; k < 4; k++)
-		if (4 * w + k < lim)
-			val = (hh_u32)hh_char(msg, 4 * w + k, unsigned_variant) + (val << 8);
+	HH_WORD_RUN(val, msg, len, num, w, unsigned_variant);
 	return val;
+}
+
+/* buf[0..num) are the words the kernel's str2hashbuf produces (num <= 8) */
+static inline int hh_words_hold(const unsigned char *msg, int len, int num, int unsigned_variant, const hh_u32 *buf)
+{
+	_Bool ok = 1;	/* a plain conjunction of word equalities (no branching): back ends substitute these directly */
+	for (int w = 0; w < 8; w++)
+		if (w < num) {
+			hh_u32 val;
+			HH_WORD_RUN(val, msg, len, num, w, unsigned_variant);
+			ok = ok & (buf[w] == val);
+		}
+	return ok;
 }
 
 /* kernel __ext4fs_dirhash(), tail: "hash = hash & ~1; if (hash == (EXT4_HTREE_EOF_32BIT << 1)) hash = (EXT4_HTREE_EOF_32BIT - 1) << 1;" */
@@ -204,8 +247,12 @@ static inline int hh_dirhash(int version, const unsigned char *name, int len, co
 	case HH_TEA:
 	case HH_TEA_UNSIGNED:
 		chunk = (version == HH_TEA || version == HH_TEA_UNSIGNED) ? 16 : 32;
-		for (int off = 0; off < len; off += chunk)
-			s = hh_step(s, version, name + off, len - off);
+		/* the kernel's own loop shape: while (len > 0) { str2hashbuf(p, len, in, N); transform(buf, in); len -= 4N; p += 4N; } */
+		while (len > 0) {
+			s = hh_step(s, version, name, len);
+			len -= chunk;
+			name += chunk;
+		}
 		if (chunk == 16) {
 			hash = s.b[0];
 			mh = s.b[1];
